@@ -188,19 +188,21 @@ def run(ctx):
         return f
 
     q = fns["_qmu_like"]
-    for rep, want_v, descr in ((Fraction(1), Poly(), "fitted POI > mu -> 0"), (Fraction(-1), TMU, "fitted POI < mu -> two-sided value")):
+    for rep, mu_rep_, want_v, descr in ((Fraction(1), Fraction(0), Poly(), "fitted POI > mu -> 0"), (Fraction(-1), Fraction(0), TMU, "fitted POI < mu -> two-sided value"),
+                                        (Fraction(5), Fraction(3), Poly(), "fitted POI 5 > mu 3 -> 0"), (Fraction(2), Fraction(3), TMU, "0 < fitted POI 2 < mu 3 -> two-sided value"),
+                                        (Fraction(-5, 2), Fraction(-2), TMU, "fitted POI -2.5 < mu -2 < 0 -> two-sided value"), (Fraction(-1), Fraction(-2), Poly(), "mu -2 < fitted POI -1 < 0 -> 0")):
         try:
             rec2 = []
             env = _env()
             env["return_fitted_pars"] = True
-            it = Interp(env, {}, {"PARS_FREE": rep, "PARS_FIXED": Fraction(0), "mu": Fraction(0)}, externals={"_tmu_like": tmu_stub(rec2)})
+            it = Interp(env, {}, {"PARS_FREE": rep, "PARS_FIXED": mu_rep_, "mu": mu_rep_}, externals={"_tmu_like": tmu_stub(rec2)})
             out = it.run(A.strip_docstring(q.node.body))
             stat = to_poly(out[0])
             if stat == want_v:
                 ctx.holds(r4, f"{TS}::_qmu_like [{descr}]")
             else:
                 ctx.violated(r4, q, f"_qmu_like [{descr}]", "the one-sided zeroing rule of the upper-limit statistics is mis-oriented", expected=str(want_v), found=str(stat))
-            if rep == 1:
+            if rep == 1 and mu_rep_ == 0:
                 pars = out[1]
                 if [str(to_poly(x)) for x in pars] == ["PARS_FIXED", "PARS_FREE"]:
                     ctx.holds(r6, f"{TS}::_qmu_like", "parameters are the helper's pair")
